@@ -117,7 +117,19 @@ def pattern_arms(F, R, eng):
         eng.cur = "match pattern %s" % var
         eng.top = "compile_match_expression"
         ends = []
-        for ctl, s, v in eng.ev(m, st):
+        # evaluate what is done for one pattern: the statements of the pattern loop from the match on the pattern's kind to
+        # the end of the iteration (the jump may be recorded in the arms or once behind the match)
+        node = m
+        if pscope is not m:
+            for blk in H.walk(pscope):
+                if blk.get("k") == "block":
+                    sts = blk.get("stmts", [])
+                    hit = [i_ for i_, s_ in enumerate(sts) if any(y is m for y in H.walk(s_))]
+                    if hit:
+                        node = {"k": "block", "stmts": sts[hit[0]:], "expr": blk.get("expr")}
+                    elif blk.get("expr") is not None and any(y is m for y in H.walk(blk["expr"])) and blk["expr"] is m:
+                        node = m
+        for ctl, s, v in eng.ev(node, st):
             ends.append(("err" if (v and v[0] == "res_err") or ctl == "ret" else "ok", s))
         res[var] = (ends, vec_ids)
     return res, f
